@@ -309,7 +309,7 @@ func writeSite(label string, p []byte) string {
 }
 
 func runC09(c *Ctx) {
-	for _, f := range ioWorkload(c, true) {
+	for _, f := range append(ioWorkload(c, true), xlFiles(c)...) {
 		if c.Only != "" && !strings.HasPrefix(c.Only, f.ID+"/") {
 			continue
 		}
@@ -419,7 +419,7 @@ func stack() string {
 // ---------- C10: read faults ----------
 
 func runC10(c *Ctx) {
-	for _, f := range ioWorkload(c, true) {
+	for _, f := range append(ioWorkload(c, true), xlFiles(c)...) {
 		if c.Only != "" && !strings.HasPrefix(c.Only, f.ID+"/") {
 			continue
 		}
@@ -429,6 +429,11 @@ func runC10(c *Ctx) {
 		}
 		sc := f.Shape.Schema()
 		for _, frag := range []int{0, 7} {
+			if frag > 0 && f.Kind == "xl" {
+				// seven-byte reads of megabyte pages make hundreds of thousands of fault
+				// positions that differ only in the offset inside one page body
+				continue
+			}
 			mk := func() *Source {
 				s := NewSource(file)
 				if frag > 0 {
@@ -607,6 +612,7 @@ func runC11(c *Ctx) {
 	runC11Trailer(c)
 	runC11Resonant(c)
 	runC11Embedded(c)
+	runC11SelfFooter(c)
 	if c.Thorough {
 		runC11Large(c)
 	}
@@ -1118,4 +1124,102 @@ func cloneTree(t *dremel.Tree) *dremel.Tree {
 		o.List = append(o.List, cloneTree(k))
 	}
 	return &o
+}
+
+// runC11SelfFooter: files that contain THEIR OWN trailer (footer, footer length,
+// magic) as the last bytes of their first and second of three row groups: the
+// last column is a string whose last value in the row group is that trailer (a
+// footer depends only on counts and sizes, so a fixpoint on the value's length
+// exists). The prefix that ends right after such a row group passes every check
+// of the trailer and its footer describes row groups that are not there; the cut
+// falls exactly where the next page header would start. Every prefix is swept.
+func runC11SelfFooter(c *Ctx) {
+	for _, sh := range c.SelShapes() {
+		sc := sh.Schema()
+		slot := len(sc.Root.Kids) - 1
+		if slot < 0 {
+			continue
+		}
+		last := sc.Root.Kids[slot]
+		if !last.Leaf || last.Type != pqfile.TByteArray || last.Rep == pqfile.Repeated {
+			continue
+		}
+		var counter uint64
+		pool, _ := EnumStructures(sc, lensSmall, 9, &counter)
+		if len(pool) < 9 {
+			continue
+		}
+		id0 := sh.Name + "/self-footer"
+		if c.Only != "" && !strings.HasPrefix(c.Only, id0+"/") {
+			continue
+		}
+		build := func(payload string) ([]byte, *pqfile.File, *ioFile) {
+			recs := make([]*dremel.Tree, 9)
+			for i := range recs {
+				recs[i] = cloneTree(pool[i])
+			}
+			for _, i := range []int{2, 5} {
+				recs[i].Kids[slot] = &dremel.Tree{IsLeaf: true, V: pqfile.Val{S: payload}}
+			}
+			f := &ioFile{ID: id0, Shape: sh, Codec: 0, Page: 1000, Recs: recs, Part: []int{3, 3, 3}, Kind: "self-footer"}
+			file, ok := f.write(c)
+			if !ok {
+				return nil, nil, nil
+			}
+			pf, err := pqfile.Parse(file)
+			if err != nil {
+				return nil, nil, nil
+			}
+			return file, pf, f
+		}
+		// fixpoint on the length, then on the content
+		payload := strings.Repeat("\x00", 64)
+		var file []byte
+		var pf *pqfile.File
+		var f *ioFile
+		fixed := false
+		for it := 0; it < 12; it++ {
+			file, pf, f = build(payload)
+			if file == nil {
+				break
+			}
+			tail := string(file[pf.FooterOff:])
+			if tail == payload {
+				fixed = true
+				break
+			}
+			payload = tail
+		}
+		if !fixed {
+			if c.Shard == 0 {
+				c.Out.Count("self_footer_no_fixpoint", 1)
+			}
+			continue
+		}
+		// the row groups must really end with the trailer
+		ends := 0
+		for gi := 1; gi < len(pf.RowGroups); gi++ {
+			e := int(pf.RowGroups[gi].Columns[0].DataPageOffset)
+			if e >= len(payload) && string(file[e-len(payload):e]) == payload {
+				ends++
+			}
+		}
+		if c.Shard == 0 {
+			c.Out.Count("self_footer_files", 1)
+			c.Out.Count("self_footer_row_groups_ending_in_own_trailer", int64(ends))
+			c.Out.Sample(map[string]interface{}{"file": id0, "bytes": len(file), "trailer_bytes": len(payload), "row_groups_ending_in_the_files_own_trailer": ends})
+		}
+		for cut := 0; cut < len(file); cut++ {
+			id := fmt.Sprintf("%s/cut=%d", id0, cut)
+			if !c.Take(id) {
+				continue
+			}
+			if prefixIsValidFile(file[:cut]) {
+				c.Out.Count("embedded_prefixes_that_are_valid_files_by_themselves", 1)
+				continue
+			}
+			c.Out.Count("self_footer_cuts", 1)
+			checkPrefix(c, f, pf, file, cut, id)
+		}
+	}
 }
